@@ -621,6 +621,14 @@ class TermAnalysis(Analysis):
         return ("global", name)
 
     def _attr(self, base: Term, name: str) -> Term:
+        if is_const(base) and isinstance(base[1], tuple) and len(base[1]) == 2 and base[1][0] == "struct.Struct" and name in ("size", "format"):
+            import struct as _st
+            try:
+                return const(_st.calcsize(base[1][1]) if name == "size" else base[1][1])
+            except _st.error:
+                pass
+        if is_const(base) and isinstance(base[1], slice) and name in ("start", "stop", "step"):
+            return const(getattr(base[1], name))
         # class / module attribute constants fold
         if base[0] == "global":
             q = base[1]
@@ -822,6 +830,17 @@ class TermAnalysis(Analysis):
             return const(len(t[2][0][1]))
         if t[0] == "call" and t[1] == ("ext", "len") and len(t[2]) == 1 and not t[3] and is_const(t[2][0]) and isinstance(t[2][0][1], (bytes, str)):
             return const(len(t[2][0][1]))
+        if t[0] == "call" and t[1][0] == "meth" and t[1][2] == "get" and t[1][1][0] == "dict" and 1 <= len(t[2]) <= 2 and not t[3] \
+                and 0 < len(t[1][1][1]) <= 12 and all(k[0] in ("const", "enum") for k, _v in t[1][1][1]):
+            # {k1: v1, k2: v2}.get(x, d): a dispatch table is the chain  v1 if x == k1 else v2 if x == k2 else d
+            out = t[2][1] if len(t[2]) == 2 else const(None)
+            for k, v in reversed(t[1][1][1]):
+                out = ("ite", ("cmp", "==", t[2][0], k), v, out)
+            return out
+        if t[0] == "call" and t[1][0] == "meth" and t[1][2] in ("pack", "unpack", "unpack_from", "iter_unpack") and is_const(t[1][1]) \
+                and isinstance(t[1][1][1], tuple) and len(t[1][1][1]) == 2 and t[1][1][1][0] == "struct.Struct":
+            # S = struct.Struct(fmt); S.unpack_from(buf, off) is struct.unpack_from(fmt, buf, off)
+            t = ("call", ("ext", f"struct.{t[1][2]}"), (const(t[1][1][1][1]),) + t[2], t[3])
         if t[0] == "call" and t[1][0] == "meth" and t[1][2] == "format" and is_const(t[1][1]) and isinstance(t[1][1][1], str) and not t[3]:
             # "a{}b{}".format(x, y) with automatic fields only is the f-string f"a{x}b{y}"
             import string
@@ -987,7 +1006,9 @@ class TermAnalysis(Analysis):
     def _dyn_call(self, v, args, kwargs) -> Term:
         def leaves(x):
             return leaves(x[2]) + leaves(x[3]) if x[0] == "ite" else [x]
-        if all(x[0] == "attr" and x[1][0] == "param" for x in leaves(v)):
+        lv = leaves(v)
+        # (a None alternative is not callable: such a leaf only survives where a guard has excluded it)
+        if any(x[0] == "attr" and x[1][0] == "param" for x in lv) and all((x[0] == "attr" and x[1][0] == "param") or x == ("const", None) for x in lv):
             return _bound_method_call(self, v, args, kwargs)
         return ("call", ("dyn", v), args, kwargs)
 
@@ -1058,6 +1079,8 @@ def _bound_method_call(ta, v, args, kwargs, depth=0):
     resolves like the direct call self.m(...)."""
     if v[0] == "ite" and depth < 6:
         return ("ite", v[1], _bound_method_call(ta, v[2], args, kwargs, depth + 1), _bound_method_call(ta, v[3], args, kwargs, depth + 1))
+    if v == ("const", None):
+        return ("top", "call of None (excluded by a guard)")
     if v[0] == "attr" and v[1][0] == "param" and ta.cls is not None and ta.param_names and v[1][1] == ta.param_names[0] \
             and ta.fn.kind in ("method", "classmethod", "property", "setter"):
         target = ta.prog.lookup_method(ta.cls, v[2])
